@@ -577,17 +577,26 @@ struct LongListenerFn : Tracked<seq::T_FN, false>
 	explicit LongListenerFn(int id) : Tracked<seq::T_FN, false>(id) {}
 	void operator() (long a, const Payload & p) const { faultPoint(F_CALL); FaultOff off; g_sink->listener(this->id, a, p.val); }
 };
+// the second parameter of the adapted listener needs a CONVERSION (int -> Num): the adapter must keep the converted value alive for
+// the duration of the call (a reference to a temporary that died inside a cast helper reads as -1 here, or trips ASan)
+struct Num
+{
+	long v;
+	Num(int x) : v(x) {}
+	Num(const Num & o) : v(o.v) {}
+	~Num() { v = -1; }
+};
 struct DerivedListenerFn : Tracked<seq::T_FN, false>
 {
 	explicit DerivedListenerFn(int id) : Tracked<seq::T_FN, false>(id) {}
-	void operator() (const std::shared_ptr<DerivedEv> & e) const { faultPoint(F_CALL); FaultOff off; g_sink->listener(this->id, e->v, e->extra); }
+	void operator() (const std::shared_ptr<DerivedEv> & e, const Num & n) const { faultPoint(F_CALL); FaultOff off; g_sink->listener(this->id, e->v, n.v == e->extra ? e->extra : -424242); }
 };
 
 struct WrapInterp : Sink
 {
 	void relabel() {}
 	typedef eventpp::CallbackList<void (int, const Payload &)> L;
-	typedef eventpp::CallbackList<void (std::shared_ptr<BaseEv>)> LS;
+	typedef eventpp::CallbackList<void (std::shared_ptr<BaseEv>, int)> LS;
 	const Plan & plan;
 	seq::Violation viol;
 	L * list; LS * slist;
@@ -646,7 +655,7 @@ struct WrapInterp : Sink
 			if(fl == 3) {
 				DerivedListenerFn f(id);
 				FaultArm arm;
-				sh[id] = slist->append(eventpp::argumentAdapter<void (std::shared_ptr<DerivedEv>)>(f));
+				sh[id] = slist->append(eventpp::argumentAdapter<void (std::shared_ptr<DerivedEv>, const Num &)>(f));
 			}
 			else {
 				FaultArm arm;
@@ -676,7 +685,7 @@ struct WrapInterp : Sink
 			sharedDispatch = op.k == O_QDISPATCH;
 			try {
 				FaultArm arm;
-				if(sharedDispatch) { std::shared_ptr<BaseEv> e = std::make_shared<DerivedEv>(op.a); (*slist)(e); }
+				if(sharedDispatch) { std::shared_ptr<BaseEv> e = std::make_shared<DerivedEv>(op.a); (*slist)(e, op.a * 2 + 1); }
 				else { Payload p(4000, op.b); (*list)(op.a, p); }
 			}
 			catch(...) { inDispatch = false; throw; }
